@@ -12,7 +12,7 @@ from typing import Union
 
 from harness.common import ASSUME, FAIL, PASS, Skip, check, tape_harness  # noqa: F401
 from harness import oracles as O
-from harness.frames import CodeView, FakeFrame, ListLogger, RETURN_OPS, YIELD_OP, residue
+from harness.frames import REPR_MSG, CodeView, FakeFrame, ListLogger, RETURN_OPS, YIELD_OP, representation_ok, residue
 from harness.values import Grammar, build_value, show
 from vfix import funcs as F
 
@@ -69,6 +69,8 @@ class ScriptedRandom:
 
 
 def sampling_body(t, rate, d0, d1, d2, d3, max_pairs=2):
+    if not representation_ok():
+        return _V.INCONCLUSIVE(REPR_MSG)
     rate_kind = t.take(4)  # None, 0, 1, N>=2
     if rate_kind == 0:
         r = None
@@ -151,6 +153,8 @@ def sampling_body(t, rate, d0, d1, d2, d3, max_pairs=2):
 
 def two_frames_body(t, rate, d0, d1, d2, d3):
     """Two live frames of the SAME generator function, interleaved (per-frame, not per-code, state)."""
+    if not representation_ok():
+        return _V.INCONCLUSIVE(REPR_MSG)
     rate_kind = t.take(3)  # None, 1, N>=2
     if rate_kind == 0:
         r = None
@@ -224,6 +228,17 @@ def two_frames_body(t, rate, d0, d1, d2, d3):
     return check(True)
 
 
+def _code_offset(code, names):
+    import opcode as _op
+
+    ops = {_op.opmap[n] for n in names if n in _op.opmap}
+    raw = code.co_code
+    for i in range(0, len(raw), 2):
+        if raw[i] in ops:
+            return i
+    raise AssertionError(f"no {names} in {code.co_name}")
+
+
 def abandon_body(t, rate, d0, d1, d2, d3):
     """A generator frame is abandoned while suspended (its close is delivered as return@YIELD_VALUE with None and
     no further event ever names it), the frame object dies, and a NEW frame -- which the allocator may place at
@@ -238,7 +253,10 @@ def abandon_body(t, rate, d0, d1, d2, d3):
         ASSUME(rate >= 2)
         r = rate
     func = F.gen_rebinding
-    cv = CodeView(func.__code__)
+    # real code object, real bytecode offsets, function found through the module globals: nothing of the tracer's
+    # internal representation is touched (this harness must keep judging when that representation changes)
+    code = func.__code__
+    y_off, r_off = _code_offset(code, ("YIELD_VALUE",)), _code_offset(code, ("RETURN_VALUE", "RETURN_CONST"))
     entry_a, entry_b = {"x": build_value(t, G_ATOM)}, {"x": build_value(t, G_ATOM)}
     n_yields_a = 1 + t.take(2)
     close_delivered = t.take(2) == 1
@@ -250,35 +268,35 @@ def abandon_body(t, rate, d0, d1, d2, d3):
     T.random = rnd
     try:
         tracer = CallTracer(logger, 0, None, r)
-        tracer.cache[cv] = func
-        fa = FakeFrame(cv, dict(entry_a))
+        fa = FakeFrame(code, dict(entry_a), vars(F), None, 0)
         tracer(fa, "call", None)
         for i in range(n_yields_a):
-            cv.co_code = [YIELD_OP]
+            fa.f_lasti = y_off
             tracer(fa, "return", i)
             if i + 1 < n_yields_a:
                 tracer(fa, "call", None)
         if close_delivered:
-            cv.co_code = [YIELD_OP]
-            tracer(fa, "return", None)  # how CPython reports the close of a suspended generator
+            fa.f_lasti = y_off
+            tracer(fa, "call", GeneratorExit())  # how CPython 3.12 reports the close of a suspended generator:
+            tracer(fa, "return", None)  # the exception as the call event's arg, then return@YIELD_VALUE with None
         logged_before = len(logger.traces)
         old_id = id(fa)
         del fa
         spare = []
-        fb = FakeFrame(cv, dict(entry_b))
+        fb = FakeFrame(code, dict(entry_b), vars(F), None, 0)
         while id(fb) != old_id and len(spare) < 300:  # adversarial allocator
             spare.append(fb)
-            fb = FakeFrame(cv, dict(entry_b))
+            fb = FakeFrame(code, dict(entry_b), vars(F), None, 0)
         before = rnd.i
         tracer(fb, "call", None)
         used = rnd.draws[before: rnd.i]
         sampled_b = True if (r is None or r == 1) else (len(used) >= 1 and used[0] == 0)
         draws_b = len(used)
-        cv.co_code = [YIELD_OP]
+        fb.f_lasti = y_off
         tracer(fb, "return", y_b)
         fb.f_locals["x"] = ["rebound"]
         tracer(fb, "call", None)
-        cv.co_code = [RETURN_OP]
+        fb.f_lasti = r_off
         tracer(fb, "return", ret_b)
     finally:
         T.random = saved
